@@ -1,11 +1,17 @@
 -- root of the library: every module, so that `lake build Vuego` checks everything
 import Vuego.Go.Strings
 import Vuego.Model.TruthRule
+import Vuego.Model.Val
+import Vuego.Model.Truthy
+import Vuego.Model.Stack
 import Vuego.Model.Overlay
 import Vuego.Lemmas.Overlay
+import Vuego.Lemmas.Stack
 import Vuego.Generated.Leaf
 import Vuego.Generated.Truthy
 import Vuego.Generated.Overlay
 import Vuego.Generated.Consts
+import Vuego.Generated.Reflect
+import Vuego.Props.C17
 import Vuego.Props.C18
 import Vuego.Driver.Ops
